@@ -94,7 +94,9 @@ def macro_of(exp):
     return "panic"
 
 
-def sites_of(fn):
+def sites_of(fn, map_unchecked=False):
+    """`map_unchecked`: also list the calls of the wrappers' `map_unchecked` (kind "map-unchecked"; the caller decides whether the mapped
+    function merely converts the wrapped string or replaces it, which makes the call an unchecked construction)"""
     out = []
     for bi, b in enumerate(fn.blocks):
         if b.get("cleanup"):
@@ -164,6 +166,11 @@ def sites_of(fn):
             if re.search(r"::new_unchecked$", nm) and (t["f"].get("krate") or "").startswith("sophia"):
                 out.append(Site(fn, bi, "validator-call", nm.split("::")[-3] if nm.count("::") >= 2 else nm,
                                 origin_desc(fn, t["args"][0]) if t["args"] else "-", "%s:%s" % (t["file"], t["line"]), t["exp"]))
+            if map_unchecked and re.search(r"::map_unchecked$", nm) and (t["f"].get("krate") or "").startswith("sophia") and len(t["args"]) > 1:
+                site = Site(fn, bi, "map-unchecked", nm.split("::")[-3] if nm.count("::") >= 2 else nm, "map_unchecked",
+                            "%s:%s" % (t["file"], t["line"]), t["exp"])
+                site.mapped = t["args"][1]
+                out.append(site)
         if t["t"] == "assert":
             k = t["kind"]
             if k in ("misaligned", "nullptr", "invalid_enum", "resumed"):
